@@ -1041,12 +1041,18 @@ def c03(ctx):
         for b in sample(ctx, bases, k):
             out.append(dict(ast=randgen.inject_random(ctx.rng, b["ast"], ctx.rng.randint(2, 4)), base=b["ast"], ng=b["ng"]))
         return renumber_ids(out)
+    # the BASE patterns themselves belong to the property (base and injected must agree): a base that is wrong while its injected
+    # spellings are right is a violation of C03 as much as the converse
+    basepats = []
+    for n in (1, 2, 3):
+        basepats += read_ndjson(pats("core", n))
     if ctx.quick:
-        spaces = [("inj_pat123", renumber_ids(sample(ctx, single, 2500)), t3), ("inj_ctxfill", renumber_ids(sample(ctx, cf, 2500)), t3),
-                  ("inj_multi", multi(800), t3)]
+        spaces = [("base_pat123", renumber_ids(basepats), t3), ("inj_pat123", renumber_ids(sample(ctx, single, 2500)), t3),
+                  ("inj_ctxfill", renumber_ids(sample(ctx, cf, 2500)), t3), ("inj_multi", multi(800), t3)]
     else:
         p4 = read_ndjson(inject_export("core", 4))
-        spaces = [("inj_pat123", renumber_ids(single), t3), ("inj_ctxfill", cf, t3), ("inj_pat4", renumber_ids(sample(ctx, p4, 40000)), t3),
+        spaces = [("base_pat123", renumber_ids(basepats), t3), ("base_ctxfill", read_ndjson(pats("ctxfill", 0)), t3),
+                  ("inj_pat123", renumber_ids(single), t3), ("inj_ctxfill", cf, t3), ("inj_pat4", renumber_ids(sample(ctx, p4, 40000)), t3),
                   ("inj_multi", multi(10000), t3)]
     ctx.exhaustive = False
     for name, recs, tpath in spaces:
